@@ -34,6 +34,10 @@ flattenable = {
 }
 
 
+def _is_single_bit(v):
+    return v is not None and v > 0 and v & (v - 1) == 0
+
+
 def _deduplicate_filter(args):
     seen = set()
     new_args = []
@@ -210,17 +214,21 @@ def eq_simplifier(a, b):
         if a.args[0].op == "BVV" and a.args[0].args[0] == 1:  # 1 ^ expr == 0
             return a.args[1] == 1
 
-        # (expr & a) ^ a == 0  ->  expr & a != 0
+        # (expr & a) ^ a == 0  ->  expr & a != 0    (only valid when a is a single bit)
         if (
             a.args[1].op == "BVV"
+            and _is_single_bit(a.args[1].args[0])
             and a.args[0].op == "__and__"
+            and len(a.args[0].args) == 2
             and a.args[0].args[1].op == "BVV"
             and a.args[0].args[1].args[0] == a.args[1].args[0]
         ):
             return a.args[0] != 0
         if (
             a.args[1].op == "BVV"
+            and _is_single_bit(a.args[1].args[0])
             and a.args[0].op == "__and__"
+            and len(a.args[0].args) == 2
             and a.args[0].args[0].op == "BVV"
             and a.args[0].args[0].args[0] == a.args[1].args[0]
         ):
@@ -308,17 +316,21 @@ def ne_simplifier(a, b):
         if a.args[0].op == "BVV" and a.args[0].args[0] == 1:
             return a.args[1] != 1
 
-        # (expr & a) ^ a != 0  ->  expr & a == 0
+        # (expr & a) ^ a != 0  ->  expr & a == 0    (only valid when a is a single bit)
         if (
             a.args[1].op == "BVV"
+            and _is_single_bit(a.args[1].args[0])
             and a.args[0].op == "__and__"
+            and len(a.args[0].args) == 2
             and a.args[0].args[1].op == "BVV"
             and a.args[0].args[1].args[0] == a.args[1].args[0]
         ):
             return a.args[0] == 0
         if (
             a.args[1].op == "BVV"
+            and _is_single_bit(a.args[1].args[0])
             and a.args[0].op == "__and__"
+            and len(a.args[0].args) == 2
             and a.args[0].args[0].op == "BVV"
             and a.args[0].args[0].args[0] == a.args[1].args[0]
         ):
